@@ -19,7 +19,6 @@ the inner indicator), so only the averaging step is judged here.
 """
 from __future__ import annotations
 
-import math
 import random
 
 from oracles import ref_indicators as R
